@@ -271,20 +271,83 @@ def _l4(model, rep):
        cls.path, "ElementVector.gbasis",
        f"decode gives {bad}: not (i // dim, i % dim)", gb.lineno)
     ini = cls.methods["__init__"]
-    s = src(ini.node)
-    names_ok = "[i + '^' + str(j + 1) for i in elem.dofnames for j in " \
-               "range(self.dim)]" in s
-    _v(rep, L4, names_ok, "ElementVector.__init__:names",
-       "name of row r is (scalar name r // dim, component r % dim + 1)",
-       cls.path, "ElementVector.__init__",
-       "component names are not generated component-fastest", ini.lineno)
-    locs_ok = "elem.doflocs[int(np.floor(float(i) / float(self.dim)))]" in s
-    _v(rep, L4, locs_ok, "ElementVector.__init__:doflocs",
-       "location of local DOF i is that of scalar DOF i // dim", cls.path,
-       "ElementVector.__init__",
-       "locations are not repeated component-fastest", ini.lineno)
-    counts_ok = all(f"self.{k}_dofs = self.elem.{k}_dofs * self.dim" in s
-                    for k in KINDS)
+    # interpret the constructor on a stub scalar element with three local
+    # DOFs (names a, b, c at locations L0, L1, L2), for the default number
+    # of components and for one that differs from the spatial dimension
+    class Locs:
+        skv_isarray = True
+        shape = (3, 2)
+
+        def skv_getitem(self, ix):
+            if isinstance(ix, Fraction):
+                ix = int(ix)
+            if isinstance(ix, int) and 0 <= ix < 3:
+                return f"L{ix}"
+            raise Raised("IndexError")
+
+        def skv_getattr(self, name):
+            if name == "shape":
+                return self.shape
+            raise Unsupported("doflocs." + name)
+
+    def hook(interp, name, args, kwargs, node):
+        if name == "numpy.array" and isinstance(args[0], list):
+            return ("rows", list(args[0]))
+        if name == "numpy.repeat" and isinstance(args[0], Locs):
+            reps = args[1]
+            ax = kwargs.get("axis", args[2] if len(args) > 2 else None)
+            if isinstance(reps, int) and ax == 0:
+                return ("rows", [f"L{k}" for k in range(3)
+                                 for _ in range(reps)])
+        if name == "numpy.floor":
+            v = args[0]
+            if isinstance(v, (int, Fraction)):
+                return Fraction(v.numerator // v.denominator) \
+                    if isinstance(v, Fraction) else v
+        return NotImplemented
+    for given, edim in ((None, 2), (3, 2), (1, 2), (2, 3)):
+        elem = Obj(None, {"dim": edim, "nodal_dofs": 1, "facet_dofs": 0,
+                          "interior_dofs": 0, "edge_dofs": 0,
+                          "dofnames": ["a", "b", "c"], "maxdeg": 1,
+                          "refdom": "REF", "doflocs": Locs()})
+        obj = Obj(cls, {})
+        try:
+            it = Interp(model, call_hook=hook)
+            it.call(ini, [elem] + ([] if given is None else [given]), {},
+                    self_obj=obj)
+        except (Unsupported, Raised) as e:
+            raise AnalysisError(f"ElementVector.__init__: {e}")
+        nc = edim if given is None else given
+        tag = f"components={'default' if given is None else given}," \
+              f"space dim={edim}"
+        want_names = [f"{nm}^{j + 1}" for nm in "abc" for j in range(nc)]
+        _v(rep, L4, obj.attrs.get("dofnames") == want_names,
+           f"ElementVector.__init__:names[{tag}]",
+           "name of row r is (scalar name r // ncomp, component r % ncomp "
+           "+ 1)", cls.path, "ElementVector.__init__",
+           f"component names are {obj.attrs.get('dofnames')}, expected "
+           f"{want_names}", ini.lineno)
+        locs = obj.attrs.get("doflocs")
+        want_locs = ("rows", [f"L{k}" for k in range(3) for _ in range(nc)])
+        _v(rep, L4, locs == want_locs,
+           f"ElementVector.__init__:doflocs[{tag}]",
+           "location of local DOF i is that of scalar DOF i // ncomp",
+           cls.path, "ElementVector.__init__",
+           f"DOF locations are {locs[1] if isinstance(locs, tuple) else locs}"
+           f", expected {want_locs[1]}: every scalar location must be "
+           f"repeated once per component ({nc}), whatever the spatial "
+           f"dimension ({edim})", ini.lineno)
+    # counts: interpreted with distinct per-kind counts
+    elem = Obj(None, {"dim": 2, "nodal_dofs": 1, "facet_dofs": 2,
+                      "interior_dofs": 3, "edge_dofs": 5,
+                      "dofnames": ["a"], "maxdeg": 1, "refdom": "REF"})
+    obj = Obj(cls, {})
+    try:
+        Interp(model, call_hook=hook).call(ini, [elem, 3], {}, self_obj=obj)
+    except (Unsupported, Raised) as e:
+        raise AnalysisError(f"ElementVector.__init__: {e}")
+    counts_ok = [obj.attrs.get(f"{k}_dofs") for k in
+                 ("nodal", "facet", "interior", "edge")] == [3, 6, 9, 15]
     _v(rep, L4, counts_ok, "ElementVector.__init__:counts",
        "per-entity counts multiplied by dim (so i % dim == row % dim)",
        cls.path, "ElementVector.__init__",
@@ -455,7 +518,21 @@ _AB = "skfem/assembly/basis/abstract_basis.py"
 _CB = "skfem/assembly/basis/composite_basis.py"
 _D = "skfem/assembly/dofs.py"
 _EV = "skfem/element/element_vector.py"
+_EV = "skfem/element/element_vector.py"
+_LOCS = """            self.doflocs = np.array([
+                elem.doflocs[int(np.floor(float(i) / float(self.dim)))]
+                for i in range(self.dim * elem.doflocs.shape[0])
+            ])
+"""
 MUTANTS = [
+    ("vector element repeats locations by the spatial dimension",
+     (_EV, _LOCS, "            self.doflocs = np.repeat(elem.doflocs, "
+      "elem.dim, axis=0)\n"), "C19-L4"),
+    ("vector element names components slowest",
+     (_EV, "                         for i in elem.dofnames\n"
+      "                         for j in range(self.dim)]",
+      "                         for j in range(self.dim)\n"
+      "                         for i in elem.dofnames]"), "C19-L4"),
     ("bilinear: local_shape listed (trial, test)",
      (_B, "            (vbasis.Nbfun, ubasis.Nbfun),", "            "
       "(ubasis.Nbfun, vbasis.Nbfun),"), "C19-L1"),
@@ -543,6 +620,10 @@ MUTANTS = [
       "                        product(*nargs[::-1]))))"), "C19-L6"),
 ]
 TWINS = [
+    ("vector element repeats locations with np.repeat by the component "
+     "count",
+     (_EV, _LOCS, "            self.doflocs = np.repeat(elem.doflocs, "
+      "self.dim, axis=0)\n")),
     ("CompositeBasis.split written with an explicit loop",
      (_CB, "        return list(zip(\n            np.split(x, np.cumsum(["
       "basis.N\n                                   for basis in self.bases])"
